@@ -253,9 +253,38 @@ def cases(ctx):
         m = g.model(n, typed=True, fcard=True, kinds=kinds, ctc_ops=ops,
                     name_classes=("plain", "space", "punct", "keyword", "nonascii", "quote", "lead"))
         yield "random", m
+    for m in twin_cases():
+        yield "twins", m
     # 4. models with out-of-range cardinalities (queries are total; outside the C03 hypothesis)
     for i in range(60 if tier == "quick" else 600):
         yield "badcards", g.model(g.rng.randint(2, 9), kinds=("mandatory", "optional", "bad", "or"))
+
+
+def twin_cases():
+    """siblings whose names differ only in letter case, held by relations of different kinds; constraints
+    whose conjunctive normal form nests AND on the right"""
+    F, R, T, OP = spec.F, spec.R, spec.T, spec.OP
+    yield dict(root=F("P", [R(1, 1, [F("Log")]), R(0, 1, [F("log")]), R(0, 1, [F("FILE")]), R(1, 1, [F("file")])]), ctcs=[])
+    yield dict(root=F("P", [R(1, 1, [F("Ab"), F("aB")]), R(0, 1, [F("AB")]), R(1, 1, [F("ab")])]), ctcs=[])
+    yield dict(root=F("P", [R(1, 2, [F("Ab"), F("aB")]), R(0, 1, [F("AB"), F("ab")]),
+                            R(1, 1, [F("Q", [R(0, 1, [F("q")]), R(1, 1, [F("p")])])])]), ctcs=[])
+    A, B, C, D, E, G = (T(x) for x in "ABCDEG")
+    N = lambda x: OP("NOT", x)  # noqa: E731
+    shapes = [
+        OP("OR", OP("AND", N(A), N(B)), OP("AND", N(C), N(D))),
+        OP("IMPLIES", A, OP("AND", B, OP("AND", C, D))),
+        OP("IMPLIES", A, OP("AND", OP("AND", B, C), D)),
+        OP("AND", OP("IMPLIES", A, B), OP("AND", OP("IMPLIES", C, D), OP("AND", OP("IMPLIES", E, G), OP("IMPLIES", A, D)))),
+        OP("AND", OP("AND", OP("IMPLIES", A, B), OP("IMPLIES", C, D)), OP("AND", OP("IMPLIES", E, G), N(OP("AND", A, D)))),
+        OP("AND", A, OP("AND", B, OP("AND", C, OP("AND", D, OP("AND", E, G))))),
+        OP("OR", N(A), OP("AND", B, OP("OR", C, OP("AND", D, E)))),
+        OP("EXCLUDES", A, OP("OR", B, OP("OR", C, D))),
+        OP("REQUIRES", OP("OR", A, OP("OR", B, C)), OP("AND", D, OP("AND", E, G))),
+    ]
+    base = gen.free_model(shapes, names="ABCDEG")
+    yield base
+    for s in shapes:
+        yield gen.free_model([s], names="ABCDEG")
 
 
 def run(ctx):
